@@ -27,6 +27,9 @@ type TxSpec struct {
 	Cur      uint64
 	Supp     uint64
 	Data     string // non-empty: contract data
+	// EmptyData: the data buffer is allocated but holds no byte ([]byte{} instead of nil) - "no data" as callers of
+	// transaction.New usually spell it
+	EmptyData bool
 }
 
 // Cfg configures the model.
@@ -134,6 +137,11 @@ func (m *Model) Init() {
 }
 
 func (m *Model) mkTx(s TxSpec) transaction.Transaction {
+	if s.EmptyData {
+		t := world.MakeTx(m.actor(s.From), m.actor(s.To).Addr, s.Label, []byte{}, spice.Melange{Currency: s.Cur, SupplementaryCurrency: s.Supp}, seq(s.Label))
+		m.W.Ref.LabelTx(s.Label, t)
+		return t
+	}
 	if s.Data != "" {
 		t := world.MakeTx(m.actor(s.From), m.actor(s.To).Addr, s.Label, []byte(s.Data), spice.Melange{Currency: s.Cur, SupplementaryCurrency: s.Supp}, seq(s.Label))
 		m.W.Ref.LabelTx(s.Label, t)
